@@ -102,7 +102,7 @@ def gen_cuts(rnd, n, allow_single=True):
 def gen_wf_case(rnd, close_ok=True, big=False):
     nreq = 1 if big else rnd.choice([1, 1, 2, 2, 3, 5])
     s = b"".join(gen_request(rnd, close_ok, big and i == 0) for i in range(nreq))
-    return {"hex": s.hex(), "cuts": gen_cuts(rnd, len(s))}
+    return {"hex": s.hex(), "cuts": gen_cuts(rnd, len(s)), "claim": "wf"}
 
 
 BAD_LENGTHS = ["x", "-1", "-5", "99999999999999999999", "4294967296", "2147483648", "18446744073709551615", "3x", "x3", "", " ",
@@ -253,7 +253,7 @@ def replay(ctx, exe):
     if first["e"] == "Begin":
         run_cases(ctx, exe, [("srv", [first["script"]], "replay", ("Trace_HttpPipeline.tla", "Trace_HttpPipeline.cfg"), True, 1)])
     else:
-        case = {"hex": bytes(first["bytes"]).hex(), "cuts": first["cuts"]}
+        case = {"hex": bytes(first["bytes"]).hex(), "cuts": first["cuts"], "claim": first.get("claim", "any")}
         if first["mode"] == "srv":
             case["mode"] = "stream"
         run_cases(ctx, exe, [("srv" if first["mode"] == "srv" else "parse", [case], "replay", ("Trace_HttpParse.tla", "Trace_HttpParse.cfg"), True, 1)])
@@ -311,7 +311,7 @@ def run(ctx):
     tasks = []
 
     # 2. parsing, spec -> code: every (stream, cuts) pair of the bounded scope -----------------------------------------------
-    cases = [{"hex": bytes(b["bytes"]).hex(), "cuts": b["cuts"]} for b in pairs]
+    cases = [{"hex": bytes(b["bytes"]).hex(), "cuts": b["cuts"], "claim": b["claim"]} for b in pairs]
     ctx.notes.append("Gen_HttpParse: %d (stream, cuts) pairs executed on RequestParser; every 7th also through a real Server" % len(cases))
     ctx.sample({"kind": "model (stream, cuts) pair executed on the real RequestParser", "stream": bytes(pairs[0]["bytes"]).decode("latin-1"),
                 "cuts": pairs[0]["cuts"]})
